@@ -221,6 +221,11 @@ def min_backward(grad, a, axis, keepdims):
 
 def squeeze_forward(a:np.ndarray, axis:'None | int | tuple'):
     out = a
+    if isinstance(axis, (tuple, list)):
+        # only the listed dims of size 1 are removed
+        axis = tuple(ax for ax in axis if len(a.shape) > 0 and a.shape[ax] == 1)
+        if len(axis) > 0: out = np.squeeze(a, axis)
+        return out
     can_apply = len(a.shape) > 0 and (axis is None or a.shape[axis] == 1)
     if can_apply: out = np.squeeze(a, axis)
     return out
